@@ -139,6 +139,23 @@ func (u *UUint) Unpack(n uint64) error {
 	return nil
 }
 
+// reflCfg is a type defined from Config: an Unpack method taking it is found by reflection.
+type reflCfg ucfg.Config
+
+// URefl has an Unpack method that matches none of the Unpacker interfaces by name of its
+// parameter type, only by convertibility from Config.
+type URefl struct{ N int }
+
+// Unpack records the value.
+func (u *URefl) Unpack(c *reflCfg) error {
+	if err := cb.hit("Unpack", "URefl", nil, true); err != nil {
+		return err
+	}
+	n, _ := (*ucfg.Config)(c).CountField("")
+	u.N = 200 + n
+	return nil
+}
+
 // UAny implements Unpacker.
 type UAny struct{ V string }
 
@@ -278,12 +295,15 @@ const (
 	KSSVInt
 	KMSVInt
 	KU64
+	KPUStr
+	KMUCfg
+	KURefl
 	kindCount
 )
 
 var kindNames = [...]string{"int", "int8", "uint16", "float64", "string", "bool", "duration", "*int", "*string", "VInt", "VStr",
 	"UStr", "UInt", "UBool", "UFloat", "UAny", "UCfg", "[]int", "[]string", "[]VInt", "[2]int", "map[string]int", "map[string]interface{}",
-	"interface{}", "*Config", "DInt", "Inner", "*Inner", "struct", "*struct", "[]struct", "map[string]struct", "inline-struct", "float32", "map[string][]int", "map[string]VInt", "PI", "*[]int", "*duration", "UUint", "[]UStr", "[]UCfg", "[]map[string]int", "*regexp", "[2]struct", "[][]VInt", "map[string][]VInt", "uint64"}
+	"interface{}", "*Config", "DInt", "Inner", "*Inner", "struct", "*struct", "[]struct", "map[string]struct", "inline-struct", "float32", "map[string][]int", "map[string]VInt", "PI", "*[]int", "*duration", "UUint", "[]UStr", "[]UCfg", "[]map[string]int", "*regexp", "[2]struct", "[][]VInt", "map[string][]VInt", "uint64", "*UStr", "map[string]UCfg", "URefl"}
 
 func (k Kind) String() string { return kindNames[k] }
 
@@ -299,6 +319,7 @@ var leafTypes = map[Kind]reflect.Type{
 	KPDur:  reflect.TypeOf((*time.Duration)(nil)),
 	KUUint: reflect.TypeOf(UUint{}), KSUStr: reflect.TypeOf([]UStr(nil)), KSUCfg: reflect.TypeOf([]UCfg(nil)),
 	KSMap: reflect.TypeOf([]map[string]int(nil)), KRegex: tRegex,
+	KPUStr: reflect.TypeOf((*UStr)(nil)), KMUCfg: reflect.TypeOf(map[string]UCfg(nil)), KURefl: reflect.TypeOf(URefl{}),
 	KSSVInt: reflect.TypeOf([][]VInt(nil)), KMSVInt: reflect.TypeOf(map[string][]VInt(nil)), KU64: reflect.TypeOf(uint64(0)),
 	KMVInt: reflect.TypeOf(map[string]VInt(nil)), KPI: reflect.TypeOf(PI(0)), KPSInt: reflect.TypeOf((*[]int)(nil)),
 	KPInt: reflect.TypeOf((*int)(nil)), KPStr: reflect.TypeOf((*string)(nil)),
